@@ -9,6 +9,9 @@ INT_BITS = {'usize': 64, 'isize': 64, 'u8': 8, 'u16': 16, 'u32': 32, 'u64': 64, 
 SIGNED = {'isize', 'i8', 'i16', 'i32', 'i64', 'i128'}
 
 
+_BVV = {}
+
+
 def is_sym(v):
     return isinstance(v, z3.ExprRef)
 
@@ -21,7 +24,11 @@ def bv(v, bits):
         return v
     if isinstance(v, bool):
         v = int(v)
-    return z3.BitVecVal(v & ((1 << bits) - 1), bits)
+    v &= (1 << bits) - 1
+    r = _BVV.get((v, bits))
+    if r is None:
+        r = _BVV[(v, bits)] = z3.BitVecVal(v, bits)
+    return r
 
 
 def norm(v, bits):
@@ -60,11 +67,31 @@ def simp(v):
     return v
 
 
+def lite(v):
+    """cheap normalisation: numerals / true / false become python values, nothing else is rewritten"""
+    if not isinstance(v, z3.ExprRef):
+        return v
+    c = v.ctx.ref()
+    a = v.as_ast()
+    k = z3.Z3_get_ast_kind(c, a)
+    if k == z3.Z3_NUMERAL_AST:
+        if isinstance(v, z3.BitVecNumRef):
+            return v.as_long()
+        return v
+    if k == z3.Z3_APP_AST and isinstance(v, z3.BoolRef):
+        dk = z3.Z3_get_decl_kind(c, z3.Z3_get_app_decl(c, a))
+        if dk == z3.Z3_OP_TRUE:
+            return True
+        if dk == z3.Z3_OP_FALSE:
+            return False
+    return v
+
+
 def b_not(a):
     a = as_bool(a)
     if isinstance(a, bool):
         return not a
-    return simp(z3.Not(a))
+    return lite(z3.Not(a))
 
 
 def b_and(*xs):
@@ -78,7 +105,7 @@ def b_and(*xs):
         out.append(x)
     if not out:
         return True
-    return simp(z3.And(*out)) if len(out) > 1 else out[0]
+    return lite(z3.And(*out)) if len(out) > 1 else out[0]
 
 
 def b_or(*xs):
@@ -92,7 +119,7 @@ def b_or(*xs):
         out.append(x)
     if not out:
         return False
-    return simp(z3.Or(*out)) if len(out) > 1 else out[0]
+    return lite(z3.Or(*out)) if len(out) > 1 else out[0]
 
 
 def b_implies(a, b):
@@ -109,9 +136,9 @@ def b_ite(c, a, b):
         b = as_bool(b)
         aa = z3.BoolVal(a) if isinstance(a, bool) else a
         bb = z3.BoolVal(b) if isinstance(b, bool) else b
-        return simp(z3.If(c, aa, bb))
+        return lite(z3.If(c, aa, bb))
     bits = a.size() if is_sym(a) else (b.size() if is_sym(b) else 64)
-    return simp(z3.If(c, bv(a, bits), bv(b, bits)))
+    return lite(z3.If(c, bv(a, bits), bv(b, bits)))
 
 
 def i_eq(a, b, bits=None):
@@ -122,34 +149,34 @@ def i_eq(a, b, bits=None):
         b = as_bool(b)
         aa = z3.BoolVal(a) if isinstance(a, bool) else a
         bb = z3.BoolVal(b) if isinstance(b, bool) else b
-        return simp(aa == bb)
+        return lite(aa == bb)
     if bits is None:
         bits = a.size() if is_sym(a) else b.size()
-    return simp(bv(a, bits) == bv(b, bits))
+    return lite(bv(a, bits) == bv(b, bits))
 
 
 def i_add(a, b, bits=64):
     if not is_sym(a) and not is_sym(b):
         return norm(a + b, bits)
-    return simp(bv(a, bits) + bv(b, bits))
+    return lite(bv(a, bits) + bv(b, bits))
 
 
 def i_sub(a, b, bits=64):
     if not is_sym(a) and not is_sym(b):
         return norm(a - b, bits)
-    return simp(bv(a, bits) - bv(b, bits))
+    return lite(bv(a, bits) - bv(b, bits))
 
 
 def i_ult(a, b, bits=64):
     if not is_sym(a) and not is_sym(b):
         return norm(a, bits) < norm(b, bits)
-    return simp(z3.ULT(bv(a, bits), bv(b, bits)))
+    return lite(z3.ULT(bv(a, bits), bv(b, bits)))
 
 
 def i_ule(a, b, bits=64):
     if not is_sym(a) and not is_sym(b):
         return norm(a, bits) <= norm(b, bits)
-    return simp(z3.ULE(bv(a, bits), bv(b, bits)))
+    return lite(z3.ULE(bv(a, bits), bv(b, bits)))
 
 
 def i_sum(xs, bits=64):
